@@ -363,7 +363,11 @@ def lace(ctx, args, stdin=b"", cwd=None, timeout=60, release=False, env=None, wr
     e["NO_COLOR"] = "1"
     e["XDG_CACHE_HOME"] = ctx.scratch
     if env:
-        e.update(env)
+        for k, v in env.items():
+            if v is None:
+                e.pop(k, None)   # a variable to be absent
+            else:
+                e[k] = v
     t = time.time()
     try:
         if stdin_file is not None:
